@@ -117,7 +117,10 @@ def inrun_summary(prop, results):
         r, v = lst[0]
         sc = r.get("scenario")
         path = None
-        if sc is not None:
+        known = core.match_open_finding(core.load_known_findings(), prop, sig) is not None
+        if sc is not None and known:
+            path = core.write_replay(prop, sc.get("seed"), sig, {"kind": "run-level", "scenario": sc, "expect": {"signature": sig, "round": v.get("round"), "phase": v.get("phase"), "digest": r["digest"]}, "detail": v.get("detail"), "minimisation": {"minimised": False, "reason": "matches an open known finding"}})
+        elif sc is not None:
             msc, got, info = runlevel.minimise(sc, sig, budget_s=60)
             if got is not None:
                 path = runlevel.make_replay(prop, msc, sig, info, got[0], got[1])
